@@ -44,6 +44,10 @@ type Prior struct {
 	Writes  int  `json:"writes"`  // 1..3 statuses
 	Payload int  `json:"payload"` // payload variant (2,3: lines beyond the 4096-byte buffer)
 	Aged    bool `json:"aged"`    // file last written 3 days ago (subject to remove-old 1)
+	// Uncompacted: the run's process was killed before Close: its file holds all
+	// its status lines and was never compacted (still a recorded run: every
+	// write had been acknowledged)
+	Uncompacted bool `json:"uncompacted,omitempty"`
 }
 
 // ROp is one operation of the crashing process.
@@ -70,7 +74,7 @@ func gen(t *rapid.T) Case {
 	np := rapid.IntRange(0, 3).Draw(t, "nPrior")
 	for i := 0; i < np; i++ {
 		c.Prior = append(c.Prior, Prior{Dag: rapid.IntRange(0, c.NDags-1).Draw(t, "pdag"), Writes: rapid.IntRange(1, 3).Draw(t, "pwrites"),
-			Payload: rapid.IntRange(0, 5).Draw(t, "ppayload"), Aged: rapid.Bool().Draw(t, "aged")})
+			Payload: rapid.IntRange(0, 5).Draw(t, "ppayload"), Aged: rapid.Bool().Draw(t, "aged"), Uncompacted: rapid.IntRange(0, 3).Draw(t, "uncompacted") == 0})
 	}
 	// a sound operation sequence by construction
 	open := -1
@@ -227,8 +231,10 @@ func build(t rep.Fataler, c *Case, now time.Time) *plan {
 			}
 			r.seqs = append(r.seqs, seq)
 		}
-		if err := db.Close(); err != nil {
-			t.Fatalf("prior close: %v", err)
+		if !pr.Uncompacted {
+			if err := db.Close(); err != nil {
+				t.Fatalf("prior close: %v", err)
+			}
 		}
 		if pr.Aged {
 			sf, err := jsondb.New(p.data, false).FindByRequestID(cur[pr.Dag], r.req)
@@ -643,7 +649,7 @@ func check(t rep.Fataler, c Case) {
 		if m := writeRe.FindStringSubmatch(call.Detail); call.Name == "write" && m != nil {
 			file := strings.Replace(m[1], pd.dir, p.dir, 1)
 			L, _ := strconv.Atoi(m[2])
-			st, err := os.Stat(file)
+			_, err := os.Stat(file)
 			if err == nil && L > 1 {
 				var prefixes []int
 				if c.Torn > 0 {
@@ -655,20 +661,37 @@ func check(t rep.Fataler, c Case) {
 				} else {
 					prefixes = []int{1, 2, L / 3, L / 2, L - 2, L - 1}
 				}
-				// the bytes of the killed write: take them from a run killed one call later
+				// the bytes of the killed write and where they go: compare the file as the
+				// kill left it with the file of a run killed one call later. An append
+				// grows the file; a write in place changes bytes from some offset on.
 				p2, r2 := superviseOnce(t, &c, k+1, false)
 				file2 := strings.Replace(m[1], pd.dir, p2.dir, 1)
 				full, err2 := os.ReadFile(file2)
-				if !r2.TimedOut && (err2 != nil || int64(len(full)) < st.Size()+int64(L)) {
-					rep.Label("torn-synthesis-skipped")
-				}
-				if !r2.TimedOut && err2 == nil && int64(len(full)) >= st.Size()+int64(L) {
-					orig, _ := os.ReadFile(file)
+				orig, _ := os.ReadFile(file)
+				if !r2.TimedOut && err2 == nil {
+					off := 0
+					for off < len(orig) && off < len(full) && orig[off] == full[off] {
+						off++
+					}
+					if off == len(orig) && len(full) == len(orig)+L {
+						// plain append
+					} else if off+L <= len(full) {
+						rep.Label("torn-synthesis:write-in-place")
+					} else {
+						rep.Label("torn-synthesis-skipped")
+						off = -1
+					}
 					for _, x := range prefixes {
-						if x <= 0 || x >= L {
+						if off < 0 || x <= 0 || x >= L || off+x > len(full) {
 							continue
 						}
-						os.WriteFile(file, append(append([]byte(nil), orig...), full[st.Size():st.Size()+int64(x)]...), 0o644)
+						torn := append([]byte(nil), orig...)
+						if off+x > len(torn) {
+							torn = append(torn[:off], full[off:off+x]...)
+						} else {
+							copy(torn[off:], full[off:off+x])
+						}
+						os.WriteFile(file, torn, 0o644)
 						cc.Torn = x
 						if msg := judge(p, &cc, lastAck, fmt.Sprintf("%s, %d of its %d bytes written", what, x, L)); msg != "" && !known(msg) {
 							os.RemoveAll(p.dir)
